@@ -251,6 +251,58 @@ def pure_properties(ctx, rep, module: str = "sourceform", label: str = ""):
     return n
 
 
+def _iteration_boundary_ambiguity(rx, B, max_states: int = 20000) -> Optional[str]:
+    """Can two consecutive iterations of a repeat with body B share their text in two ways?  I.e. are there u1 u2 = v1 v2 with all
+    four in B and u1 = v1 x for a non-empty x (`(<ws>*a<ws>*)+`: the blanks between two a's belong to either iteration).  Then a
+    chain of n iterations has exponentially many parses.  Decided on derivatives: x must extend some word of B to a word of B
+    (x in the left quotient of B by B) and be the start of a word of B whose rest is again in B.  Returns such an x (with the prefix that leads to it)."""
+    alphabet = rx.classes(B)
+    # phase 1: states D1 = B after reading a word w that is itself in B  (left quotient of B by B, as a set of residuals)
+    starts = {}
+    seen = {(B, B)}
+    frontier = [((B, B), "")]
+    n = 0
+    while frontier:
+        nxt = []
+        for (d1, d2), w in frontier:
+            for ch in alphabet:
+                e1, e2 = rx.deriv(d1, ch), rx.deriv(d2, ch)
+                if e1 == rx.EMPTY or e2 == rx.EMPTY or (e1, e2) in seen:
+                    continue
+                seen.add((e1, e2))
+                if rx.nullable(e2) and e1 not in starts:
+                    starts[e1] = w + ch
+                nxt.append(((e1, e2), w + ch))
+                n += 1
+                if n > max_states:
+                    return None
+        frontier = nxt
+    # phase 2: a non-empty x accepted from such a state, after which B can still continue with a word of B
+    for e0, w in starts.items():
+        seen2 = {(e0, B)}
+        frontier2 = [((e0, B), "")]
+        while frontier2:
+            nxt = []
+            for (e, f), x in frontier2:
+                for ch in alphabet:
+                    e1, f1 = rx.deriv(e, ch), rx.deriv(f, ch)
+                    if e1 == rx.EMPTY or f1 == rx.EMPTY or (e1, f1) in seen2:
+                        continue
+                    seen2.add((e1, f1))
+                    if rx.nullable(e1):
+                        try:
+                            if rx.witness(rx.conj(f1, B), max_states=5000) is not None:
+                                return w + "|" + x + ch
+                        except rx.Budget:
+                            pass
+                    nxt.append(((e1, f1), x + ch))
+                    n += 1
+                    if n > max_states:
+                        return None
+            frontier2 = nxt
+    return None
+
+
 def ambiguous_star(rx, pattern: str, flags: int) -> Optional[str]:
     """shortest string that an unbounded repeat of `pattern` can consume in two different ways (B.B intersects B for
     the repeat body B, or two alternatives of the body overlap), else None"""
@@ -272,6 +324,9 @@ def ambiguous_star(rx, pattern: str, flags: int) -> Optional[str]:
                         nonempty = rx.conj(body, rx.cat(rx.chars(rx.UNIVERSE), rx.ANYSTAR))
                         two = rx.cat(nonempty, nonempty)
                         w = rx.witness(rx.conj(two, nonempty))
+                        if w is not None:
+                            return w
+                        w = _iteration_boundary_ambiguity(rx, nonempty)
                         if w is not None:
                             return w
                 r = walk(sub, later or hi != 1)
@@ -557,4 +612,428 @@ def shallow_copy_shares_lists(ctx, rep, elem_class, label: str = ""):
                        f"`{ast.unparse(st)}` is a shallow copy: `{cvar}.{attr}` is the very list of the original, and "
                        f"`{ast.unparse(mut)[:50]}` ({py.qualname(py.enclosing_function(mut))}) changes it in place - what is resolved for the "
                        f"copy overwrites the original's entries", py.nloc(st), nontrivial=not rebound)
+    return n
+
+
+# ------------------------------------------------------------------ field-by-field copies copy each field from its namesake
+def _kw_copy_sites(fn: ast.AST):
+    """calls that copy fields one by one, `f(a=src.a, b=src.b, c=src.c, ...)`: at least three keywords whose value is an
+    attribute of one and the same object, at least two thirds of them under their own name"""
+    out = []
+    for c in ast.walk(fn):
+        if not isinstance(c, ast.Call):
+            continue
+        pairs = [(k.arg, ast.unparse(k.value.value), k.value.attr, k) for k in c.keywords
+                 if k.arg and isinstance(k.value, ast.Attribute)]
+        by_src: Dict[str, list] = {}
+        for p in pairs:
+            by_src.setdefault(p[1], []).append(p)
+        for src, ps in by_src.items():
+            same = sum(1 for kw, _s, at, _k in ps if kw == at)
+            if len(ps) >= 3 and same * 3 >= len(ps) * 2:
+                out.append((c, src, ps))
+    return out
+
+
+_KW_COPY_EXAMPLE = """
+def inherit(cls, project):
+    return cls(graph=project.graph, depth=project.nodes, nodes=project.nodes, source=project.source)
+"""
+
+
+def keyword_copy_agreement(ctx, rep, modules: Optional[Sequence[str]] = None, label: str = "", exceptions=()):
+    """In a call that copies settings field by field (`cls(graph=p.graph, graph_maxdepth=p.graph_maxdepth, ...)`) a keyword fed
+    from a *different* attribute of the same source is the classic copy-and-paste slip: the field silently takes the value of
+    its neighbour.  `exceptions`: (keyword, attribute) pairs that are meant to differ, each with a reason in the caller."""
+    py = ctx.py
+    ex = _kw_copy_sites(ast.parse(_KW_COPY_EXAMPLE))
+    if len(ex) != 1 or sorted(kw for kw, _s, at, _k in ex[0][2] if kw != at) != ["depth"]:
+        raise AnalysisError("keyword_copy_agreement: the matcher fails on its own example")
+    n = 0
+    for mod, fn in py.all_functions():
+        if modules is not None and mod not in modules:
+            continue
+        for c, src, ps in _kw_copy_sites(fn):
+            if py.enclosing_function(c) is not fn:
+                continue
+            for kw, _s, at, k in ps:
+                n += 1
+                ok = kw == at or (kw, at) in exceptions
+                rep.ob(f"{label}{py.qualname(fn)}: `{kw}=` is copied from its namesake", ok,
+                       f"{kw}={src}.{at}" if ok else
+                       f"`{kw}={src}.{at}`: every other field of this call is copied from the attribute of the same name; this one "
+                       f"takes the value of `{at}`, so the `{kw}` configured for the project is ignored", py.nloc(k.value),
+                       nontrivial=not ok)
+    return n
+
+
+# ------------------------------------------------------------------ memoised functions do not hand out shared mutable state
+_MUTATORS = {"append", "extend", "insert", "pop", "remove", "clear", "update", "setdefault", "sort", "reverse", "add", "discard",
+             "popitem"}
+_CACHE_DECOS = {"lru_cache", "cache", "functools.lru_cache", "functools.cache"}
+
+
+def _is_cached(fn: ast.AST) -> bool:
+    for d in getattr(fn, "decorator_list", []):
+        t = ast.unparse(d.func if isinstance(d, ast.Call) else d)
+        if t in _CACHE_DECOS:
+            return True
+    return False
+
+
+def _returns_mutable(fn: ast.AST) -> Optional[ast.AST]:
+    """a return expression that certainly builds a fresh mutable container (display, comprehension, list()/dict()/set(),
+    json.load(s), .copy(), .split(), sorted())"""
+    for r in ast.walk(fn):
+        if not isinstance(r, ast.Return) or r.value is None:
+            continue
+        for v in astq.expand_locals(r.value, fn) + [r.value]:
+            if isinstance(v, (ast.List, ast.Dict, ast.Set, ast.ListComp, ast.DictComp, ast.SetComp)):
+                return v
+            if isinstance(v, ast.Call):
+                cn = call_name(v)
+                if cn in ("list", "dict", "set", "sorted", "json.load", "json.loads", "tomllib.load", "tomllib.loads",
+                          "defaultdict", "copy.copy", "copy.deepcopy") or cn.split(".")[-1] in ("copy", "split", "splitlines"):
+                    return v
+    return None
+
+
+def _param_mutated(py, fn: ast.AST, param: str, depth: int = 0) -> Optional[ast.AST]:
+    """a statement of fn (or, two levels deep, of a function it hands the value or one of its elements to) that changes the
+    object bound to `param` in place"""
+    names = {param}
+    for st in ast.walk(fn):          # elements / views of the object
+        if isinstance(st, (ast.For, ast.comprehension)) and isinstance(st.target, ast.Name):
+            it = st.iter
+            if isinstance(it, ast.Call) and isinstance(it.func, ast.Attribute) and it.func.attr in ("values", "items"):
+                it = it.func.value
+            if isinstance(it, ast.Name) and it.id in names:
+                names.add(st.target.id)
+        elif isinstance(st, ast.Assign) and len(st.targets) == 1 and isinstance(st.targets[0], ast.Name):
+            v = st.value
+            while isinstance(v, ast.Subscript):
+                v = v.value
+            if isinstance(v, ast.Name) and v.id in names and isinstance(st.value, ast.Subscript):
+                names.add(st.targets[0].id)
+    for st in ast.walk(fn):
+        tg = []
+        if isinstance(st, ast.Assign):
+            tg = st.targets
+        elif isinstance(st, (ast.AugAssign, ast.AnnAssign)):
+            tg = [st.target]
+        elif isinstance(st, ast.Delete):
+            tg = st.targets
+        for t in tg:
+            if isinstance(t, ast.Subscript):
+                b = t.value
+                while isinstance(b, ast.Subscript):
+                    b = b.value
+                if isinstance(b, ast.Name) and b.id in names:
+                    return st
+        if isinstance(st, ast.Call) and isinstance(st.func, ast.Attribute) and st.func.attr in _MUTATORS:
+            b = st.func.value
+            while isinstance(b, ast.Subscript):
+                b = b.value
+            if isinstance(b, ast.Name) and b.id in names:
+                return st
+    if depth >= 2:
+        return None
+    for c in ast.walk(fn):
+        if not isinstance(c, ast.Call):
+            continue
+        cn = call_name(c)
+        tgt = None
+        for cand in (cn, cn.split(".")[-1]):
+            for mod in py.modules:
+                if py.has_func(f"{mod}.{cand}"):
+                    tgt = py.func(f"{mod}.{cand}")
+                    break
+            if tgt is not None:
+                break
+        if tgt is None:
+            continue
+        try:
+            bound = astq.bind_args(c, tgt)
+        except Exception:
+            continue
+        for pname, arg in bound.items():
+            if isinstance(arg, ast.Name) and arg.id in names:
+                hit = _param_mutated(py, tgt, pname, depth + 1)
+                if hit is not None:
+                    return hit
+    return None
+
+
+_CACHED_EXAMPLE = """
+import functools, json
+@functools.lru_cache(maxsize=None)
+def load(path):
+    return json.loads(path.read_text())
+@functools.lru_cache
+def pure(name):
+    return name.lower()
+def user(path):
+    for entry in load(path):
+        fix(entry)
+def fix(d):
+    d["url"] = d["url"][2:]
+"""
+
+
+def cached_mutable_result(ctx, rep, label: str = ""):
+    """A function under `functools.lru_cache`/`cache` hands the *same object* to every caller.  If it builds a mutable
+    container (parsed JSON, a list, a dict) and a caller changes that object in place, the second caller sees the first
+    caller's edits - and the cache never notices that the underlying file changed."""
+    py = ctx.py
+
+    def sites(funcs, resolver):
+        out = []
+        for fn in funcs:
+            if not _is_cached(fn):
+                continue
+            mut = _returns_mutable(fn)
+            hit = None
+            if mut is not None:
+                for user in funcs:
+                    for st in ast.walk(user):
+                        holder = None
+                        if isinstance(st, ast.Assign) and isinstance(st.value, ast.Call) and call_name(st.value).split(".")[-1] == fn.name \
+                                and len(st.targets) == 1 and isinstance(st.targets[0], ast.Name):
+                            holder = st.targets[0].id
+                        elif isinstance(st, (ast.For, ast.comprehension)) and isinstance(st.iter, ast.Call) and \
+                                call_name(st.iter).split(".")[-1] == fn.name and isinstance(st.target, ast.Name):
+                            holder = st.target.id
+                        if holder is not None:
+                            hit = hit or resolver(user, holder)
+            out.append((fn, mut, hit))
+        return out
+
+    class _Ex:       # the example is resolved against its own functions
+        def __init__(self, tree):
+            self.f = {n.name: n for n in tree.body if isinstance(n, ast.FunctionDef)}
+            self.modules = {"ex": tree}
+        def has_func(self, q):
+            return q.split(".")[-1] in self.f
+        def func(self, q):
+            return self.f[q.split(".")[-1]]
+    ext = ast.parse(_CACHED_EXAMPLE)
+    exm = _Ex(ext)
+    got = {fn.name: (mut is not None, hit is not None) for fn, mut, hit in
+           sites(list(exm.f.values()), lambda u, h: _param_mutated(exm, u, h))}
+    if got != {"load": (True, True), "pure": (False, False)}:
+        raise AnalysisError(f"cached_mutable_result: the matcher fails on its own example ({got})")
+    funcs = [fn for _m, fn in py.all_functions()]
+    n = 0
+    for fn, mut, hit in sites(funcs, lambda u, h: _param_mutated(py, u, h)):
+        n += 1
+        ok = hit is None
+        rep.ob(f"{label}{py.qualname(fn)}: the memoised result is not changed by its callers", ok,
+               "returns an immutable value" if mut is None else "the shared container is only read" if ok else
+               f"`{ast.unparse(mut)[:50]}` is built once and shared by all callers, and `{ast.unparse(hit)[:60]}` "
+               f"({py.nloc(hit)}) changes it in place: the next caller gets the already edited object", py.nloc(fn),
+               nontrivial=mut is not None)
+    rep.ob(f"{label}no memoised function hands out a container that a caller edits", True,
+           f"{len(funcs)} functions inspected, {n} memoised", "ford/")
+    return n + 1
+
+
+# ------------------------------------------------------------------ equality is not coarser than what is displayed
+_LOSSY = {"lower", "upper", "casefold", "strip", "lstrip", "rstrip", "title", "capitalize", "swapcase"}
+
+
+def _identity_attrs(cls: ast.ClassDef) -> Set[str]:
+    """attributes of self that __eq__/__hash__ are computed from"""
+    out: Set[str] = set()
+    for m in cls.body:
+        if isinstance(m, ast.FunctionDef) and m.name in ("__eq__", "__hash__"):
+            for a in ast.walk(m):
+                if isinstance(a, ast.Attribute) and isinstance(a.value, ast.Name) and a.value.id == "self":
+                    out.add(a.attr)
+    return out
+
+
+def _lossy_identity_sites(cls: ast.ClassDef):
+    keys = _identity_attrs(cls)
+    has = {m.name for m in cls.body if isinstance(m, ast.FunctionDef)}
+    if not keys or not {"__eq__", "__hash__"} <= has:
+        return []
+    out = []
+    for m in cls.body:
+        if not isinstance(m, ast.FunctionDef):
+            continue
+        for st in ast.walk(m):
+            if not (isinstance(st, ast.Assign) and len(st.targets) == 1):
+                continue
+            t = st.targets[0]
+            if not (isinstance(t, ast.Attribute) and isinstance(t.value, ast.Name) and t.value.id == "self" and t.attr in keys):
+                continue
+            lossy = None
+            for c in ast.walk(st.value):
+                if isinstance(c, ast.Call) and isinstance(c.func, ast.Attribute) and c.func.attr in _LOSSY:
+                    r = c.func.value
+                    if isinstance(r, ast.Attribute) and isinstance(r.value, ast.Name) and r.value.id == "self" and r.attr not in keys:
+                        lossy = (c, r.attr)
+            out.append((m, st, lossy))
+    return out
+
+
+_LOSSY_EXAMPLE = """
+class Node:
+    def __init__(self, obj):
+        self.name = obj
+        self.ident = self.name.lower()
+    def __eq__(self, other):
+        return self.ident == other.ident
+    def __hash__(self):
+        return hash(self.ident)
+class Fine:
+    def __init__(self, obj):
+        self.name = obj
+        self.ident = self.name
+    def __eq__(self, other):
+        return self.ident == other.ident
+    def __hash__(self):
+        return hash(self.ident)
+"""
+
+
+def lossy_identity_key(ctx, rep, modules: Optional[Sequence[str]] = None, label: str = ""):
+    """A class whose `__eq__`/`__hash__` use attribute K while another attribute N keeps the text K was derived from by a lossy
+    method (`self.K = self.N.lower()`): two objects that differ only in N are equal, a set keeps whichever was inserted first,
+    and - insertion order being the iteration order of another set - which spelling is displayed depends on PYTHONHASHSEED."""
+    py = ctx.py
+    ex = [c for c in ast.parse(_LOSSY_EXAMPLE).body if isinstance(c, ast.ClassDef)]
+    got = sorted((c.name, l is not None) for c in ex for _m, _st, l in _lossy_identity_sites(c))
+    if got != [("Fine", False), ("Node", True)]:
+        raise AnalysisError(f"lossy_identity_key: the matcher fails on its own example ({got})")
+    n = 0
+    for mod, tree in py.modules.items():
+        if modules is not None and mod not in modules:
+            continue
+        for cls in ast.walk(tree):
+            if not isinstance(cls, ast.ClassDef):
+                continue
+            for m, st, lossy in _lossy_identity_sites(cls):
+                n += 1
+                ok = lossy is None
+                rep.ob(f"{label}{cls.name}.{m.name}: identity key `{ast.unparse(st.targets[0])}` keeps what is displayed apart", ok,
+                       ast.unparse(st)[:80] if ok else
+                       f"`{ast.unparse(st)}`: objects that differ only in `self.{lossy[1]}` become equal while `self.{lossy[1]}` (the "
+                       f"displayed text) keeps its spelling; which of them survives in a set depends on the order of insertion, "
+                       f"i.e. on the iteration order of the set they came from (PYTHONHASHSEED)", py.nloc(st), nontrivial=not ok)
+    return n
+
+
+# ------------------------------------------------------------------ replacement templates of regex substitutions
+def _closest_def(fn: ast.AST, name: str, before: ast.AST) -> Optional[ast.AST]:
+    """value of the textually last plain assignment to `name` that precedes `before` in fn"""
+    best = None
+    for st in ast.walk(fn):
+        if isinstance(st, ast.Assign) and len(st.targets) == 1 and isinstance(st.targets[0], ast.Name) and st.targets[0].id == name \
+                and (st.lineno, st.col_offset) < (before.lineno, before.col_offset):
+            if best is None or (st.lineno, st.col_offset) > (best.lineno, best.col_offset):
+                best = st
+    return best.value if best is not None else None
+
+
+def _doubles_backslashes(e: ast.AST) -> bool:
+    return isinstance(e, ast.Call) and isinstance(e.func, ast.Attribute) and (
+        (e.func.attr == "replace" and len(e.args) >= 2 and all(isinstance(a, ast.Constant) for a in e.args[:2])
+         and e.args[0].value == "\\" and e.args[1].value == "\\\\") or call_name(e) == "re.escape")
+
+
+def _template_kind(py, fn: ast.AST, call: ast.Call, repl: ast.AST, depth: int = 0) -> str:
+    """'const' | 'callable' | 'number' | 'escaped' | 'text' (arbitrary text used as a template)"""
+    if isinstance(repl, ast.Constant):
+        return "const"
+    if isinstance(repl, ast.Lambda):
+        return "callable"
+    if isinstance(repl, ast.JoinedStr):
+        kinds = [_template_kind(py, fn, call, v.value, depth + 1) for v in repl.values if isinstance(v, ast.FormattedValue)]
+        return "text" if "text" in kinds else "const"
+    if isinstance(repl, ast.BinOp) and isinstance(repl.op, (ast.Add, ast.Sub, ast.Mult)):
+        ks = {_template_kind(py, fn, call, repl.left, depth + 1), _template_kind(py, fn, call, repl.right, depth + 1)}
+        return "text" if "text" in ks else "escaped" if "escaped" in ks else "number" if ks == {"number"} else "const"
+    if isinstance(repl, ast.Call):
+        cn = call_name(repl)
+        if cn in ("len", "int", "str") and (cn != "str" or all(_template_kind(py, fn, call, a, depth + 1) == "number" for a in repl.args)):
+            return "number"
+        if _doubles_backslashes(repl):
+            return "escaped"
+        return "text"
+    if isinstance(repl, ast.Attribute):
+        # a bound method (self._lookup) is a callable; a data attribute is text
+        cls = py.enclosing_class(fn)
+        if isinstance(repl.value, ast.Name) and repl.value.id in ("self", "cls") and cls and repl.attr in py.cls(cls).methods:
+            return "callable"
+        return "text"
+    if isinstance(repl, ast.Name) and depth < 6:
+        if any(isinstance(n, (ast.FunctionDef, ast.Lambda)) and getattr(n, "name", None) == repl.id for n in ast.walk(fn)) or \
+                py.has_func(f"{py.module_of(fn)}.{repl.id}"):
+            return "callable"
+        d = _closest_def(fn, repl.id, call)
+        if d is None:
+            return "text"
+        if _doubles_backslashes(d):
+            return "escaped"
+        return _template_kind(py, fn, call, d, depth + 1)
+    if isinstance(repl, ast.Constant):
+        return "const"
+    return "text"
+
+
+_SUB_EXAMPLE = """
+def restore(text, strings, R):
+    s = strings[0]
+    bad = R.sub(s, text, count=1)
+    s = s.replace("\\\\", "\\\\\\\\")
+    good = R.sub(s, text, count=1)
+    also = R.sub(f'"{len(strings) - 1}"', text)
+    return bad, good, also
+"""
+
+
+def sub_template_escaped(ctx, rep, modules: Optional[Sequence[str]] = None, label: str = ""):
+    """`pattern.sub(repl, s)` interprets backslashes (and `\\g<..>`) in a *string* `repl`.  Text that comes from the documented
+    source (a character literal put back in place of its placeholder) is therefore only a valid template after its backslashes
+    were doubled; otherwise `'a\\d'` raises re.error ("bad escape") and `'C:\\new'` silently turns into a line feed."""
+    py = ctx.py
+    exf = ast.parse(_SUB_EXAMPLE).body[0]
+
+    class _P:        # minimal stand-in for the example
+        def enclosing_class(self, fn):
+            return None
+        def has_func(self, q):
+            return False
+        def module_of(self, fn):
+            return "ex"
+    got = []
+    for c in ast.walk(exf):
+        if isinstance(c, ast.Call) and isinstance(c.func, ast.Attribute) and c.func.attr == "sub":
+            got.append(_template_kind(_P(), exf, c, c.args[0]))
+    if got != ["text", "escaped", "const"]:
+        raise AnalysisError(f"sub_template_escaped: the matcher fails on its own example ({got})")
+    n = 0
+    for mod, fn in py.all_functions():
+        if modules is not None and mod not in modules:
+            continue
+        for c in ast.walk(fn):
+            if not (isinstance(c, ast.Call) and isinstance(c.func, ast.Attribute) and c.func.attr in ("sub", "subn")):
+                continue
+            if py.enclosing_function(c) is not fn:
+                continue
+            is_re = call_name(c) in ("re.sub", "re.subn")
+            args = c.args[1:] if is_re else c.args
+            repl = args[0] if args else next((k.value for k in c.keywords if k.arg == "repl"), None)
+            if repl is None:
+                continue
+            n += 1
+            kind = _template_kind(py, fn, c, repl)
+            ok = kind != "text"
+            rep.ob(f"{label}{py.qualname(fn)}: template `{ast.unparse(repl)[:40]}` of `{ast.unparse(c.func)[:30]}`", ok,
+                   {"const": "constant template", "callable": "replacement function", "number": "a number",
+                    "escaped": "backslashes doubled before use"}.get(kind, "") if ok else
+                   f"`{ast.unparse(repl)[:50]}` is text taken from the source and used as a replacement *template*: a literal such "
+                   f"as 'a\\\\d' makes FORD fail with re.error (bad escape), 'C:\\\\new' is changed into a line feed", py.nloc(c),
+                   nontrivial=kind in ("text", "escaped"))
     return n
